@@ -6,7 +6,7 @@ import harness
 
 PROP_FILES = ["N2k/Props/C03.lean"]
 LEAN_TARGETS = ["N2k.Props.C03"]
-SUITE_NAMES = ["fast-encode-exhaustive", "fast-decode-inorder", "fast-consecutive", "fast-restarted-sender"]
+SUITE_NAMES = ["fast-encode-exhaustive", "fast-decode-inorder", "fast-consecutive", "fast-restarted-sender", "fast-public-path"]
 EXHAUSTIVE = True
 ASSUMPTIONS = ["payload bytes are 0..255; lengths 0..223 (the range the property states); lengths 224..255 are recorded by a witness only"]
 TRUSTED_EXTRA = ["C03: Model/Fast.lean is hand-written; tied by exhaustive correspondence over all 224 lengths x 8 counters x 3 fillings on every run"]
@@ -76,7 +76,9 @@ def correspondence(ctx):
                 o, r, _ = harness.fast_feed(d, (130816, 1, 255), f)
                 obs.append(f"{o}/{r}")
         s4.add("fast.run " + ",".join(harness.hx(f) for f in frames), ",".join(obs), "restart")
-    return [s1.run(), s2.run(), s3.run(), s4.run()]
+    import enccorr
+    # "every encodable fast-packet PGN definition through the public encode/decode path"
+    return [s1.run(), s2.run(), s3.run(), s4.run()] + enccorr.suite_messages(ctx, "fast-public-path", fmts=("frames", "ebyte"), types=("Fast",))
 
 
 def _spec_frames(seq, p):
@@ -154,7 +156,12 @@ def search(ctx, broken, corr_broken):
             if bad:
                 return [{"key": f"C03/second-message-same-counter/len{ln}-seq{seq}", "what": bad[0],
                          "replay": {"kind": "fast-twice", "seq": seq, "payloads": bad[1]}}]
-    return []
+    # every encodable fast definition through the public path: message -> encoder -> packets -> decoder -> message
+    import enccorr
+    hits, n = enccorr.monitor_trips(ctx, prop="C03", types=("Fast",), fmts=("ebyte", "usb"))
+    h2, n2 = enccorr.monitor_rotation(ctx, "C03")
+    LAST_SEARCH_CANDIDATES += n + n2
+    return (hits + h2)[:3]
 
 
 def _monitor_twice(seq, p1, p2):
@@ -182,4 +189,10 @@ def replay(rp):
     if rp.get("kind") == "fast-twice":
         bad = _monitor_twice(rp["seq"], *[bytes.fromhex(x) for x in rp["payloads"]])
         return bad is None, (bad[0] if bad else "holds now")
+    if rp.get("kind") == "message-trip":
+        import enccorr
+        return enccorr.replay_trip(rp)
+    if rp.get("kind") == "rotation":
+        import enccorr
+        return enccorr.replay_rotation(rp)
     return False, "not an input replay: " + str(rp.get("broken_theorems") or rp.get("broken_correspondence") or rp.get("kind"))
